@@ -297,7 +297,7 @@ fn io_coerce_narrowing() {
 // C07-S / C08: IoSafeState::apply -- afterwards every configured address holds its safe value
 // ---------------------------------------------------------------------------------------------
 
-// @unit id=io.safe_state.apply props=C07,C08 tier=quick kind=bounded bound="2 entries (BYTE at %QB0, WORD at %QB2), 1-byte image, values full domain" timeout=1500 fn=IoSafeState::apply,IoInterface::write
+// @unit id=io.safe_state.apply props=C07,C08 tier=thorough kind=bounded bound="2 entries (BYTE at %QB0, WORD at %QB2), 1-byte image, values full domain" timeout=3600 fn=IoSafeState::apply,IoInterface::write
 #[kani::proof]
 #[kani::stub(std::hash::RandomState::new, fixed_rs)]
 #[kani::unwind(12)]
@@ -323,7 +323,7 @@ fn io_safe_state_apply() {
 }
 
 // overlapping entries: the later entry wins on the shared byte
-// @unit id=io.safe_state.overlap props=C07,C08 tier=thorough kind=bounded bound="2 entries (BYTE at %QB1, WORD at %QB0), 1-byte image, values full domain" timeout=1500 fn=IoSafeState::apply,IoInterface::write
+// @unit id=io.safe_state.overlap props=C07,C08 tier=thorough kind=bounded bound="2 entries (BYTE at %QB1, WORD at %QB0), 1-byte image, values full domain" timeout=3600 fn=IoSafeState::apply,IoInterface::write
 #[kani::proof]
 #[kani::stub(std::hash::RandomState::new, fixed_rs)]
 #[kani::unwind(12)]
